@@ -1,5 +1,5 @@
 import Soa.Model.SkelView
-import Soa.Lemmas.SkelRead
+import Soa.Lemmas.SkelRead.C10
 import Soa.Lemmas.PerField
 /-!
 # Pointer bundles: the extracted methods are the std raw-pointer method on every component
